@@ -5,7 +5,10 @@ import json, sys
 pid = sys.argv[1]; n = int(sys.argv[2]) if len(sys.argv) > 2 else 2
 p = [json.loads(l) for l in open('/verif/properties.jsonl') if json.loads(l)['id'] == pid][0]
 wt = "/tmp/wt-%s" % pid
-print(f"""You are given a scratch git worktree of the Rust crate `petgraph` at {wt} (a checkout of the crate's pinned commit). Work ONLY inside {wt} and /tmp/seeds/{pid}/. Do NOT read, list or touch /verif or /repo (another team's independent work lives there and your output must be independent of it).
+import os
+base = os.environ.get("SEEDS", "/tmp/seeds")
+avoid = os.environ.get("AVOID", "")
+print(f"""You are given a scratch git worktree of the Rust crate `petgraph` at {wt} (a checkout of the crate's pinned commit). Work ONLY inside {wt} and {base}/{pid}/. Do NOT read, list or touch /verif or /repo (another team's independent work lives there and your output must be independent of it).
 
 A semantic property that users of petgraph rely on:
 
@@ -19,11 +22,11 @@ YOUR TASK: produce {n} independent source changes to petgraph (under {wt}/src on
   (b) passes the ENTIRE existing test suite unchanged:  cd {wt} && cargo test --workspace --offline --no-fail-fast   (all tests must pass; report the totals),
   (c) BREAKS the property above, and
   (d) needs something specific to manifest: a multi-step sequence of operations, an unusual or boundary input, a particular internal state (vacant indices, reused ids, a capacity boundary, a tie, a particular iteration order), or two cooperating sites that each look fine alone. It must NOT be something ordinary use would expose at once (otherwise the existing tests would catch it anyway).
-Make them realistic: the kind of slip a maintainer could make during a refactor or an optimisation (off-by-one, wrong variable, dropped update, wrong direction, stale cached count, missing case, reordered statements) - not a contrived `if x == 12345` back door. The {n} changes should touch different mechanisms/functions.
+Make them realistic: the kind of slip a maintainer could make during a refactor or an optimisation (off-by-one, wrong variable, dropped update, wrong direction, stale cached count, missing case, reordered statements) - not a contrived `if x == 12345` back door. The {n} changes should touch different mechanisms/functions.{(' Earlier rounds already produced changes in: ' + avoid + ' - choose OTHER functions, files or mechanisms this time (the property covers more code than that).') if avoid else ''}
 
-For each change k = 1..{n} deliver in /tmp/seeds/{pid}/<k>/ :
+For each change k = 1..{n} deliver in {base}/{pid}/<k>/ :
   patch.diff  - `git diff` of the src change only (must apply with `git apply` to a clean checkout of HEAD),
   demo.rs     - a self-contained integration test file (to be dropped into {wt}/tests/ as seed_demo.rs and run with `cargo test --offline --test seed_demo`; add `--features serde-1` style requirements in notes if needed) that FAILS with the change applied and PASSES on the clean checkout. It is a demonstration, not part of the patch.
   notes.md    - which clause of the property it breaks, what is needed for it to manifest, the exact commands you ran and their observed results (test totals with the patch; demo result with and without the patch).
 
-You must actually run and confirm all of this: clean tree -> demo passes; patched tree -> full suite passes AND demo fails. If a candidate change is caught by the existing suite, discard it and find another. Before finishing, restore the worktree to a clean state (`git -C {wt} checkout -- . && git -C {wt} clean -fdq -e target`), keeping only the files under /tmp/seeds/{pid}/. The machine is shared: use at most `-j 4` for cargo (e.g. `cargo test -j 4 ...`). No network is available (always pass --offline). Final answer: a short summary per change (file/function touched, how it manifests), nothing else.""")
+You must actually run and confirm all of this: clean tree -> demo passes; patched tree -> full suite passes AND demo fails. If a candidate change is caught by the existing suite, discard it and find another. Before finishing, restore the worktree to a clean state (`git -C {wt} checkout -- . && git -C {wt} clean -fdq -e target`), keeping only the files under {base}/{pid}/. The machine is shared: use at most `-j 4` for cargo (e.g. `cargo test -j 4 ...`). No network is available (always pass --offline). Final answer: a short summary per change (file/function touched, how it manifests), nothing else.""")
